@@ -36,3 +36,5 @@ Example ex_memory_safe : valid 5 [B "prog"; B "TEST("; B "-xt"; B "a..b"; B "-r"
 Proof. split; [vm_compute; reflexivity|]. split; [vm_compute; reflexivity|]. vm_compute. eexists. repeat split. Qed.
 Example ex_memory_old : parse_m_old 5 [B "prog"; B "TEST(grp"] = Oob /\ valid 5 [B "prog"; B "TEST(grp"] = true.
 Proof. split; vm_compute; reflexivity. Qed.
+Example ex_seed : parse 5 [B "prog"; B "-s"; B "7"; B "-s"] = Accept (set_seed (set_shuf default_config true) 5) /\ parse 5 [B "prog"; B "-v"; B "-s0"] = Reject false.
+Proof. split; vm_compute; reflexivity. Qed.
